@@ -81,10 +81,20 @@ func hasProp(ps []string, p string) bool {
 	return false
 }
 
+type boundedSpec struct {
+	Name        string            `json:"name"`
+	TestFile    string            `json:"test_file"` // relative to /verif
+	Pkg         string            `json:"pkg"`       // package directory in /repo
+	Run         string            `json:"run"`
+	EnvQuick    map[string]string `json:"env_quick"`
+	EnvThorough map[string]string `json:"env_thorough"`
+	Bound       string            `json:"bound"`
+}
+
 type propMeta struct {
-	Assumptions []string `json:"assumptions"`
-	Packages    []string `json:"packages"`
-	Bounded     []string `json:"bounded"`
+	Assumptions []string      `json:"assumptions"`
+	Packages    []string      `json:"packages"`
+	Bounded     []boundedSpec `json:"bounded"`
 }
 
 func loadPropMeta(prop string) propMeta {
@@ -362,7 +372,7 @@ func cmdCheck(args []string) int {
 	}
 	// bounded stand-ins and thorough extras
 	var boundedOut []any
-	if len(meta.Bounded) > 0 || *tier == "thorough" {
+	if len(meta.Bounded) > 0 {
 		bo, bv := runExtras(cx, *prop, *tier, seed, meta, replayDir)
 		boundedOut = bo
 		viols = append(viols, bv...)
